@@ -19,6 +19,10 @@ import (
 type Lossy struct {
 	Inner transport.Implementation
 	P     *Pipe
+	// ReadErr / EOFErr / WriteErr, when set, are the error VALUES reported in place of the pipe's
+	// ErrIO / io.EOF / ErrWrite (the property quantifies over error values: ECONNRESET, ETIMEDOUT,
+	// deadline exceeded, …).
+	ReadErr, EOFErr, WriteErr error
 	// ErrDelay is slept before every ErrIO after the first (0: a failing descriptor answers at once).
 	ErrDelay time.Duration
 
@@ -68,6 +72,11 @@ func (l *Lossy) Read(n int) ([]byte, error) {
 		closed = l.P.Closed
 		l.P.Mu.Unlock()
 		if !closed {
+			if errors.Is(err, io.EOF) && l.EOFErr != nil {
+				err = l.EOFErr
+			} else if !errors.Is(err, io.EOF) && l.ReadErr != nil {
+				err = l.ReadErr
+			}
 			l.readLost = err
 			l.LossReads++
 			if errors.Is(err, io.EOF) {
@@ -85,6 +94,9 @@ func (l *Lossy) Write(b []byte) error {
 	l.mu.Lock()
 	if l.writeLost {
 		l.mu.Unlock()
+		if l.WriteErr != nil {
+			return l.WriteErr
+		}
 		return ErrWrite
 	}
 	l.mu.Unlock()
@@ -94,6 +106,9 @@ func (l *Lossy) Write(b []byte) error {
 		l.writeLost = true
 		l.mark("werr")
 		l.mu.Unlock()
+		if l.WriteErr != nil {
+			err = l.WriteErr
+		}
 	}
 	return err
 }
